@@ -140,9 +140,16 @@ impl Model<Protobuf> {
             Rust::Struct {
                 fields,
                 tag: _,
-                extension_after: _,
-                ordering: _,
+                extension_after,
+                ordering,
             } => {
+                // the field numbers follow the order in which the fields are written, which
+                // for a SET is the canonical order and not the textual one
+                let fields = crate::generate::walker::AsnDefWriter::fields_in_encoding_order(
+                    fields,
+                    *extension_after,
+                    *ordering,
+                );
                 let mut proto_fields = Vec::with_capacity(fields.len());
                 for field in fields.iter() {
                     proto_fields.push((
